@@ -4,32 +4,45 @@ import json, subprocess
 
 HOOK_COMMITS = ["db46fe7"]
 
-# id -> (technique, level text, level note, design ref)
-CHECKS = {
- "C10": ("proptest + exhaustive edge grid against an independent ordering model; differential across literal / typed-field / value-API evaluation",
-         "Pairs of integers (27x27 edge grid exhaustively, random, neighbours around 2^53..2^63), floats, byte strings, timestamps, mixed int/float and structured values are compared through compiled VRL programs and the value API; all six operators must agree with an independent total-order model and with each other.",
-         "trusts Rust's native orderings as the model; mixed int/float asserts only what the statement gives",
-         "3/C10"),
- "C11": ("proptest against an independent arithmetic model (i128 mod 2^64, IEEE on converted operands), three delivery forms + value API",
-         "Operator x operand-pair x delivery-form cases are evaluated through compiled VRL (literals, exact-typed fields, any-typed fields under ??) and the arithmetic API and compared bit-for-bit with the model; NaN must surface as an error.",
-         "float results use the host's IEEE operations in both model and implementation (dispatch/conversion is what is independent); pairs the statement leaves undefined are only required not to panic",
-         "3/C11"),
- "C18": ("proptest differential vs reference model + algebraic laws (get/insert/remove), stateful op histories, shrinking",
-         "Generated (value, path, inserted value, prune) tuples and 1-8 step operation histories are pushed through Value::{get,insert,remove} and through an independent functional model; the four laws of the statement are asserted separately. Exploration only: absence of violations outside the generated cases is not established.",
-         "trusts model/vpath.rs (reference semantics written from the doc comments) and the TV<->Value conversion",
-         "3/C18"),
+# id -> technique (the deciding method, in a few words)
+TECH = {
+ "C10": "proptest + exhaustive edge grid against an independent ordering model; differential across literal / typed-field / value-API evaluation",
+ "C11": "proptest against an independent arithmetic model (i128 mod 2^64, IEEE on converted operands), three delivery forms + value API",
+ "C18": "proptest differential vs reference model + algebraic laws (get/insert/remove), stateful op histories, shrinking",
+ "C19": "proptest: members constructed from generated kinds (top-down and by widening exact kinds), soundness of Kind get/insert/remove/union/merge/superset against an independent membership predicate",
+ "C21": "proptest + exhaustive code-point and number grids: encode_json/parse_json and serde round-trips with ulp-exact float comparison",
+ "C22": "proptest round-trips decode(encode(x, opts), opts) == x through compiled VRL for every codec and option value",
+ "C23": "proptest + enumerated algorithm grid: decrypt(encrypt(p)) == p for all 32 algorithms with documented key/IV sizes; ciphertext != plaintext law; ip round-trips",
+ "C24": "proptest + exhaustive structural-character grid: parse(encode(x)) == x for key-value (5 delimiter choices), logfmt, CSV",
+ "C25": "proptest + enumerated base/edge grid: inverse-pair laws in both directions with own printers for intermediate forms",
+ "C26": "descriptor-driven proptest: message-shaped values for every bundled message type, parse_proto(encode_proto(v)) == normalise(v)",
+ "C27": "proptest differential against independent implementations (python hashlib/hmac, own bit-serial CRC validated on catalogue check values, twox-hash, own SeaHash)",
+ "C28": "proptest algebraic laws with small independent models (idempotence, split/join, substring search, truncate/strlen, slice, unique, compact, keys/values, merge)",
+ "C29": "proptest + enumerated grid with an exact rational-arithmetic oracle (BigRational) for round/ceil/floor/abs/mod and conversion consistency laws",
+ "C32": "proptest: generated grok rules vs reference regex built from an own pattern table (regex crate), captures + filters model, alias DAG/cycle enumeration",
+ "C35": "proptest + enumerated spellings: Conversion::parse/convert round-trips of canonical text under seven configured timezones, independent chrono_tz oracle for zone-less formats",
+ "C36": "metamorphic proptest: one compiled program of tagged time-operation templates run under two timezones; zone-explicit parts identical, zone-implicit parts must differ when offsets differ",
 }
+
+def describe():
+    out = subprocess.run(['/verif/harness/target/release/vcheck', 'describe'], capture_output=True, text=True, check=True).stdout
+    return {d['id']: d for d in json.loads(out)}
 
 PENDING_REASON = "check not built yet in this revision (planned: see DESIGN.md section 3)"
 
 def main():
+    global CHECKS
+    CHECKS = describe()
     props = [json.loads(l) for l in open('/verif/properties.jsonl')]
     checks = []
     na = []
     for p in props:
         pid = p['id']
         if pid in CHECKS:
-            tech, text, note, ref = CHECKS[pid]
+            d = CHECKS[pid]
+            tech = TECH.get(pid, 'property-based testing (proptest) against an explicit oracle')
+            text = ("Exploration by generated-input search with shrinking and replay; holds on everything explored, absence of violations elsewhere is not established. " + d['rule'])[:1800]
+            note = d['note']; ref = '3/' + pid
             checks.append({
                 "property_id": pid,
                 "quick_cmd": f"./check {pid} quick",
